@@ -149,6 +149,7 @@ def run_config(cfg, res):
     del out[:], generated[:], flushes[:], gen_marks[:]
     viol = []
     sh = {}            # (agg, interval) -> record
+    series_freq = {}   # agg -> frequency of the rule feeding it
     ever = {}          # agg -> set(intervals with data)
     nemit = 0
     late = 0
@@ -169,9 +170,7 @@ def run_config(cfg, res):
         emitted_here = generated[gi:hi]
         gi = hi
         recs = dict((key[1], rec) for key, rec in sh.items() if key[0] == m)
-        freq = None
-        for rec in recs.values():
-          freq = rec['freq']
+        freq = series_freq.get(m)          # the frequency of the rule that feeds this series now
         emitted_intervals = set()
         for (gm, (interval, value)) in emitted_here:
           nemit += 1
@@ -241,8 +240,12 @@ def run_config(cfg, res):
         rules = load_rules(ev[1])
         check_emissions()
         for rec in sh.values():
-          rec['reloaded'] = True
+          # carbon drops every buffer when the rules change (BufferManager.clear()): nothing buffered survives
+          rec['alive'] = False
+          rec['all'] = []
           rec['since'] = []
+          rec['inactive'] = None
+          rec['was_forgotten'] = True
         res.count('rule_reloads_mid_stream')
       elif ev[0] == 'arrive':
         _, name, off, value = ev
@@ -264,6 +267,7 @@ def run_config(cfg, res):
                                                     alive=True, inactive=None, was_forgotten=False))
           rec['alive'] = True
           rec['inactive'] = None
+          series_freq[agg] = freq
           if rec['method'] != rule['method'] or rec['freq'] != freq:      # the rule changed under this series
             rec['method'], rec['freq'] = rule['method'], freq
           rec['all'].append(value)
